@@ -421,11 +421,25 @@ def decide(pid, pcfg, cfg, tier, seed, workdir, evidence):
         if kf["property"] == pid:
             log(f"KNOWN-FINDING: property={pid} {kf['what']}")
     if mine:
-        path = write_replay(pid, mine)
+        # Verus gives no model: look for an input on which the real code shows the violation
+        found = None
+        if os.environ.get("VERIF_NO_FINDER") != "1":
+            import finder
+            found = finder.search(pid)
+        extra = None
+        if found and found.get("found"):
+            extra = {"failing_input": {"case": found["case"], "expected": found["expected"], "actual": found["actual"],
+                                       "how": "finder/: real code (current tree) vs executable transcription of the specification; "
+                                              "re-run with bin/check " + pid + " --replay <this file>"}}
+        path = write_replay(pid, mine, extra)
         evidence["violations"] = len(mine)
         for f in mine:
             log(f"failed obligation: {f['message']} :: {'; '.join(f['where'])}")
-        log(f"VIOLATION property={pid} replay={path} no-failing-input-found")
+        if extra:
+            log(f"failing input: {found['case'][:200]} expected: {found['expected'][:200]} actual: {found['actual'][:200]}")
+            log(f"VIOLATION property={pid} replay={path}")
+        else:
+            log(f"VIOLATION property={pid} replay={path} no-failing-input-found")
         return 1
     if kani_res and kani_res["violations"]:
         evidence["violations"] = len(kani_res["violations"])
